@@ -563,19 +563,18 @@ Section SortTotal.
     StronglySorted le s -> k <= length (filter (fun y => leb y x) s) ->
     Forall (fun y => leb y x = true) (firstn k s).
   Proof.
-    intros Hs. revert k. induction Hs as [|y s Hs IH Hf]; intros [|k] Hk; cbn [firstn];
-      try constructor.
-    - cbn in Hk. lia.
-    - cbn [filter] in Hk. destruct (leb y x) eqn:E; [reflexivity|].
-      exfalso. destruct (filter (fun y => leb y x) s) as [|z f] eqn:Ef; [cbn in Hk; lia|].
-      assert (In z (filter (fun y => leb y x) s)) as Hz by (rewrite Ef; left; reflexivity).
-      apply filter_In in Hz as [Hz Hzx]. rewrite Forall_forall in Hf.
-      rewrite (leb_trans _ _ _ (Hf z Hz) Hzx) in E. discriminate.
-    - apply IH. cbn [filter] in Hk. destruct (leb y x) eqn:E; [cbn [length] in Hk; lia|].
-      exfalso. destruct (filter (fun y => leb y x) s) as [|z f] eqn:Ef; [cbn in Hk; lia|].
-      assert (In z (filter (fun y => leb y x) s)) as Hz by (rewrite Ef; left; reflexivity).
-      apply filter_In in Hz as [Hz Hzx]. rewrite Forall_forall in Hf.
-      rewrite (leb_trans _ _ _ (Hf z Hz) Hzx) in E. discriminate.
+    intros Hs. revert k. induction Hs as [|y s Hs IH Hf]; intros k Hk.
+    - rewrite firstn_nil. constructor.
+    - destruct k as [|k]; [constructor|]. cbn [firstn].
+      assert (leb y x = true) as E.
+      { destruct (leb y x) eqn:E; [reflexivity|]. exfalso.
+        cbn [filter] in Hk. rewrite E in Hk.
+        destruct (filter (fun y => leb y x) s) as [|z f] eqn:Ef; [cbn in Hk; lia|].
+        assert (In z (filter (fun y => leb y x) s)) as Hz by (rewrite Ef; left; reflexivity).
+        apply filter_In in Hz as [Hz Hzx]. rewrite Forall_forall in Hf.
+        rewrite (leb_trans _ _ _ (Hf z Hz) Hzx) in E. discriminate. }
+      constructor; [exact E|]. apply IH.
+      cbn [filter] in Hk. rewrite E in Hk. cbn [length] in Hk. lia.
   Qed.
 
   Lemma shift_eqv t x n :
